@@ -28,6 +28,7 @@ FUNCTIONS = [("thejoker/multiproc_helpers.py", "marginal_ln_likelihood_helper"),
              ("thejoker/utils.py", "read_batch_slice"), ("thejoker/utils.py", "read_batch_idx"), ("thejoker/utils.py", "table_header_to_units"),
              ("thejoker/utils.py", "tempfile_decorator"), ("thejoker/samples.py", "JokerSamples.pack"), ("thejoker/samples.py", "JokerSamples.write"),
              ("thejoker/likelihood_helpers.py", "marginal_ln_likelihood_inmem"), ("thejoker/thejoker.py", "TheJoker.marginal_ln_likelihood")]
+PYX_FUNCTIONS = ['CJokerHelper.__reduce__', 'CJokerHelper.batch_marginal_ln_likelihood', 'CJokerHelper.batch_get_posterior_samples', 'CJokerHelper.likelihood_worker']
 ASSUMPTIONS = [
     "junk family: the kernel's scratch state is arbitrary reals; LAPACK/Kepler/RNG stubs as in C01/C03 (outputs of a stub depend only on the inputs it is handed)",
     "partition/history families: kernel stub ll = LL(row in internal units) (uninterpreted), file system / HDF5 / pool by contract (symx.env); real multi-process scheduling and pickling outside",
